@@ -32,8 +32,12 @@ type c10Case struct {
 	Descr      string
 }
 
+// (the last entries do not fit the 2-byte row length / 1-byte family length of a KeyValue:
+// the constructor may refuse them, but nothing may be encoded wrongly in silence)
 var c10RowLens = []int{0, 1, 2, 3, 17, 255, 256, 1000, 65535}
+var c10RowLensOversize = []int{65536, 65541}
 var c10FamLens = []int{0, 1, 2, 5, 254, 255}
+var c10FamLensOversize = []int{256, 300}
 var c10QualLens = []int{0, 1, 2, 10, 300}
 var c10ValLens = []int{0, 1, 8, 100, 1000}
 var c10TS = []uint64{0, 1, math.MaxInt64, 1 << 63, math.MaxUint64 - 1, 1500000000000}
@@ -57,6 +61,9 @@ func genC10(r *rand.Rand) (c10Case, []byte) {
 	var cs c10Case
 	cs.Kind = []string{"put", "app", "inc", "del", "del1"}[r.Intn(5)]
 	cs.RowLen = c10RowLens[r.Intn(len(c10RowLens))]
+	if r.Intn(40) == 0 {
+		cs.RowLen = c10RowLensOversize[r.Intn(len(c10RowLensOversize))]
+	}
 	if r.Intn(4) == 0 {
 		cs.RowLen = r.Intn(300)
 	}
@@ -78,6 +85,9 @@ func genC10(r *rand.Rand) (c10Case, []byte) {
 	}
 	fam := func() string {
 		n := pick(c10FamLens)
+		if r.Intn(40) == 0 {
+			n = pick(c10FamLensOversize)
+		}
 		lens = append(lens, fmt.Sprintf("f%d", n))
 		return string(rbytes(r, n))
 	}
